@@ -17,6 +17,29 @@ add("C14",
     "model; the correspondence is differential testing. Known finding: u32 overflow for widths > 10 / number u32::MAX.",
     "machine-checked proof in Coq (induction/arith) + model-vs-code correspondence evaluated by vm_compute")
 
+
+add("C01",
+    "Coq theorems over the inventory model (std++ gmap): every reachable committed inventory is valid (E050/E107/E095/E101, "
+    "version bounds, reads never look into the future) for all histories of new/cp/mv/rm/reset/commit/reset-all/purge and all "
+    "hash-order outcomes of dedup_head; staged invariant preserved by every resolved staging operation; at most one new content "
+    "path per new digest. Tied to the code by per-step refinement of generated histories (model applied to the implementation's own "
+    "pre-state must equal its post-state, evaluated in Coq) and searched with an independent OCFL validator (vplib/ocflv.py) plus the "
+    "structural clauses of the property after every commit/upgrade/purge.",
+    "Trusted: Coq kernel, Model/Inventory.v + Model/Staging.v, abs (vplib/absinv.py), harness, ocflv.py. File-system clauses "
+    "(stray files, empty directories, version inventories/sidecars, storage root) are decided by the search on executed histories only.",
+    "machine-checked proof in Coq (invariant by induction over operations) + per-step refinement correspondence + independent validator")
+
+add("C09",
+    "Coq theorems: the staged logical view after any resolved cp/mv/rm/reset equals an abstract cp/mv/rm/reset specification "
+    "(no manifest, no content paths); every staged path of every reachable staged object is backed by its own staged file or by "
+    "committed content; no file/directory conflicts; removed paths absent; reset restores the previous entry; a failing source "
+    "changes nothing and leaves the object well formed. Correspondence: per-step refinement including the destination rules of "
+    "external and internal cp/mv (files, directories, globs, recursive or not, one/many sources, trailing slash, root). Search: listing = "
+    "staged inventory, every staged path readable with the ingested bytes, staged files present, objects committable at the end.",
+    "Trusted as C01. globset syntax beyond literal/*/? is not generated; hash-order dependent steps are accepted if some order "
+    "reproduces the observation (counted in the evidence).",
+    "machine-checked proof in Coq (refinement to an abstract spec + invariants) + per-step refinement correspondence")
+
 NOT_APPLICABLE = []  # filled below for every property without a check yet
 
 ALL = ["C%02d" % i for i in range(1, 21)]
